@@ -48,4 +48,8 @@ CHECKS = {
         text='For every function of the <=3-named universe, every bound positional count and every bound keyword set (<=3) in every insertion order (incl. partial-of-partial), signatures.signature(p) and sigtools.signature(p) accept exactly the non-colliding shapes the real partial object accepts (160 shapes, real calls), raise ValueError iff the partial is uncallable, and satisfy the structural clauses (identity of defaults, keyword-only followers, *args removal, absorbed keywords sourced to the partial, depth 0); partials of generated forwarding wrappers resolve the callee from bound positionals only.',
         design_ref='DESIGN.md 2/C19', technique='bounded-exhaustive enumeration + Hypothesis, differential against really calling the functools.partial object',
         note='Trusted: vlib/cpbind.py for the signature side; the partial object itself is the oracle for the behaviour side.'),
+    'C20': dict(
+        text='For every signature of the <=3-named universe in three decorations (defaults, annotations, return annotation), eager and postponed, support.s / f / func_from_sig reproduce the generator\'s spec under the native spelling and the 7 modifiers-based read_sig option combinations (no positional-only parameters), f returns its arguments keyed by name, bind_callsig/sort_callsigs agree with really calling the function on 192 shapes, and make_up_callsigs contains every prefix x keyword subset; plus 24k Hypothesis signatures with <=5 named parameters.',
+        design_ref='DESIGN.md 2/C20', technique='bounded-exhaustive enumeration + Hypothesis; round-trip against the generator spec and differential against real calls / CPython-binding-with-values model',
+        note='Trusted: vlib/cpbind.py Binder.bind. Expected parameter lists come from the generator spec, not from parsing the text.'),
 }
